@@ -340,7 +340,9 @@ def run_property(chk, pid):
 
 
 def random_method(rnd, aligned=True):
-    """random well-formed method at instruction level, converted to byte-offset level"""
+    """random well-formed method at instruction level, converted to byte-offset level.
+    Payloads are appended after the code or (in 40% of the methods) placed between instructions, as hand-written assemblers and
+    obfuscators emit them; switches of the same form and case count share one payload 40% of the time."""
     n = rnd.randrange(2, 30)
     kinds = []
     for i in range(n):
@@ -359,53 +361,83 @@ def random_method(rnd, aligned=True):
             kinds.append(("return", 2))
         else:
             kinds.append(("throw", 2))
-    offs, at = [], 0
-    for k, ln in kinds:
-        offs.append(at)
-        at += ln
-    ins = []
-    pays = []
+    meta = {}
     for i, (k, ln) in enumerate(kinds):
-        tg = []
-        sub = None
-        if k in ("goto", "if"):
-            tg = [offs[rnd.randrange(n)]]
-            if k == "if":
-                sub = rnd.choice(["if-eqz", "if-eq"])
-        elif k == "switch":
-            cnt = rnd.randrange(0, 4)
-            tg = [offs[rnd.randrange(n)] for _ in range(cnt)]
-            sub = rnd.choice(["packed", "sparse"])
-        ins.append([offs[i], ln, k, tg, -1, sub])
-        if k in ("switch", "fill"):
-            pays.append(i)
-    shared = {}
-    for i in pays:
-        k = kinds[i][0]
-        x = ins[i]
-        if k == "switch" and shared.get((tuple(x[3]), x[5])) is not None and rnd.random() < 0.3:
-            # switches sharing one payload must have the same base for identical targets: only share when targets are empty
-            pass
+        if k == "switch":
+            meta[i] = dict(sub=rnd.choice(["packed", "sparse"]), cnt=rnd.randrange(0, 4))
+        elif k == "fill":
+            meta[i] = dict(size=rnd.choice([1, 2, 3, 6]))
+    share = {}
+    for i in sorted(meta):
+        if kinds[i][0] != "switch":
+            continue
+        cands = [j for j in meta if j < i and kinds[j][0] == "switch" and j not in share
+                 and meta[j]["sub"] == meta[i]["sub"] and meta[j]["cnt"] == meta[i]["cnt"]]
+        if cands and rnd.random() < 0.4:
+            share[i] = rnd.choice(cands)
+    inline = rnd.random() < 0.4
+    place = {i: (rnd.randrange(n) if inline and rnd.random() < 0.6 else None) for i in meta if i not in share}
+    ins, offs, payoff = [], [], {}
+    at = 0
+
+    def emit_payload(i):
+        nonlocal at
         if aligned:
             if at % 4:
                 ins.append([at, 2, "plain", [], -1, "nop"])
                 at += 2
+        elif at % 4 == 0 and rnd.random() < 0.7:
+            ins.append([at, 2, "plain", [], -1, "nop"])
+            at += 2
+        if kinds[i][0] == "switch":
+            cnt = meta[i]["cnt"]
+            ln = 8 + 4 * cnt if meta[i]["sub"] == "packed" else 4 + 8 * cnt
+            ins.append([at, ln, "payload", [], -1, meta[i]["sub"]])
         else:
-            if at % 4 == 0 and rnd.random() < 0.7:
-                ins.append([at, 2, "plain", [], -1, "nop"])
-                at += 2
-        if k == "switch":
-            cnt = len(x[3])
-            ln = 8 + 4 * cnt if x[5] == "packed" else 4 + 8 * cnt
-            if x[5] == "packed" and ln == 4 + 8 * cnt:       # cnt = 1 is ambiguous by length: force packed
-                pass
-            ins.append([at, ln, "payload", [], -1, x[5]])
-        else:
-            size = rnd.choice([1, 2, 3, 6])
+            size = meta[i]["size"]
             ln = 8 + size + (size % 2)
             ins.append([at, ln, "payload", [], -1, "odd" if size % 2 else None])
-        x[4] = at
+        payoff[i] = at
         at += ln
+    real = {}
+    for i, (k, ln) in enumerate(kinds):
+        offs.append(at)
+        real[i] = len(ins)
+        ins.append([at, ln, k, [], -1, None])
+        at += ln
+        for j in sorted(place):
+            if place[j] == i:
+                emit_payload(j)
+    for j in sorted(place):
+        if place[j] is None:
+            emit_payload(j)
+    offset_set = set(offs)
+    sharers = {}
+    for i, j in share.items():
+        sharers.setdefault(j, []).append(i)
+    for i, (k, ln) in enumerate(kinds):
+        x = ins[real[i]]
+        if k in ("goto", "if"):
+            x[3] = [offs[rnd.randrange(n)]]
+            if k == "if":
+                x[5] = rnd.choice(["if-eqz", "if-eq"])
+        elif k == "switch":
+            x[5] = meta[i]["sub"]
+            if i in share:
+                continue
+            x[4] = payoff[i]
+            tg = []
+            for _ in range(meta[i]["cnt"]):
+                # a case target of a shared payload is relative to each switch using it: prefer targets that are instructions for all of them
+                good = [c for c in offs if all(c - offs[i] + offs[s] in offset_set for s in sharers.get(i, []))]
+                tg.append(rnd.choice(good) if good else offs[rnd.randrange(n)])
+            x[3] = tg
+        elif k == "fill":
+            x[4] = payoff[i]
+    for i, j in share.items():
+        x = ins[real[i]]
+        x[4] = payoff[j]
+        x[3] = [t - offs[j] + offs[i] for t in ins[real[j]][3]]
     # sparse payload with cnt = 1 has length 12 = packed length for cnt = 1: realise() tells them apart by sub
     tries = []
     cur = 0
